@@ -4,7 +4,7 @@ from __future__ import annotations
 import copy
 from typing import Any, Dict, List
 
-from . import gen_h1
+from . import from_tlc, gen_h1
 
 COMMON_ASSUMPTIONS = [
     "h11/h2/wsproto/priority libraries behave as documented (their server roles are exercised, not re-verified)",
@@ -13,13 +13,29 @@ COMMON_ASSUMPTIONS = [
     "design-level results hold for the stated small constants; conformance runs use real sizes on the schedules the scripts force",
 ]
 
+H1_DESIGN = [
+    {"module": "MC_H1Conn", "cfg": "MC_H1Conn_quick.cfg"},
+    {"module": "MC_H1Conn", "cfg": "MC_H1Conn_thorough.cfg", "tier": "thorough", "timeout": 7200},
+]
+
+
+def _dev(dev: str, expect: str) -> Dict[str, Any]:
+    return {"module": "MC_H1Conn", "cfg": "MC_H1Conn_quick.cfg", "dev": dev, "expect": expect}
+
+
+H1_GEN = [from_tlc.gen_h1_from_spec]
+
 PROPS: Dict[str, Dict[str, Any]] = {
-    "C01": {"monitor": "C01", "generators": [gen_h1.gen_c01]},
-    "C02": {"monitor": "C02", "generators": [gen_h1.gen_c02]},
-    "C03": {"monitor": "C03", "generators": [gen_h1.gen_c03]},
-    "C05": {"monitor": "C05", "generators": [gen_h1.gen_c05]},
-    "C06": {"monitor": "C06", "generators": [gen_h1.gen_c06]},
-    "C07": {"monitor": "C07", "generators": [gen_h1.gen_c07]},
+    "C01": {"monitor": "C01", "generators": [gen_h1.gen_c01] + H1_GEN, "design": H1_DESIGN},
+    "C02": {"monitor": "C02", "generators": [gen_h1.gen_c02] + H1_GEN, "design": H1_DESIGN},
+    "C03": {"monitor": "C03", "generators": [gen_h1.gen_c03] + H1_GEN, "design": H1_DESIGN,
+            "deviations": [_dev("DevDoubleLog", "AtMostOneAccess"), _dev("DevParked", "Released")]},
+    "C05": {"monitor": "C05", "generators": [gen_h1.gen_c05] + H1_GEN, "design": H1_DESIGN},
+    "C06": {"monitor": "C06", "generators": [gen_h1.gen_c06] + H1_GEN, "design": H1_DESIGN,
+            "deviations": [_dev("DevDiscPutBlocks", "Released")]},
+    "C07": {"monitor": "C07", "generators": [gen_h1.gen_c07] + H1_GEN, "design": H1_DESIGN,
+            "deviations": [_dev("DevParked", "Released"), _dev("DevIdleKeeps", "Released"),
+                           _dev("DevDiscPutBlocks", "Released")]},
 }
 
 
